@@ -57,8 +57,14 @@ func (x *VerifC17Ctx) SSRCs() []uint32 { return x.c.ssrcs }
 // StartROCs returns the initial roll-over counters.
 func (x *VerifC17Ctx) StartROCs() []uint32 { return x.c.startROCs }
 
-// ROC runs roc.
-func (x *VerifC17Ctx) ROC(ssrc uint32) uint32 { return x.c.roc(ssrc) }
+// ROC reads the roll-over counter of ssrc from the SRTP context itself (not through a helper of the
+// wrapper, so that a refactoring of the helpers does not take the check down with it).
+func (x *VerifC17Ctx) ROC(ssrc uint32) uint32 {
+	x.c.mutex.RLock()
+	defer x.c.mutex.RUnlock()
+	v, _ := x.c.w.ROC(ssrc)
+	return v
+}
 
 // EncryptRTP runs encryptRTP.
 func (x *VerifC17Ctx) EncryptRTP(dst, plain []byte, h *rtp.Header) ([]byte, error) {
